@@ -31,11 +31,14 @@ RowsProduct(c) == LET F[i \in 0..Len(c.mv)] == IF i = 0 THEN 1 ELSE F[i - 1] * L
 Size(c) == CASE c.kind = "count" -> c.n [] c.kind = "keys" -> Len(c.keys) [] c.kind = "matrix" -> RowsProduct(c)
 
 \* the inputs for which "every index is distinct" can hold at all
+\* (kind "mixed": more than one of withCount / withKeys / withMatrix is set - the requested index set is not defined)
 InputDistinct(c) == CASE c.kind = "count" -> TRUE
+                      [] c.kind = "mixed" -> TRUE
                       [] c.kind = "keys" -> NoDupSeq(c.keys)
                       [] c.kind = "matrix" -> \A i \in 1..Len(c.mv) : NoDupSeq(c.mv[i])
 \* what admission must at least refuse
 WellFormed(c) == CASE c.kind = "count" -> c.n > 0
+                   [] c.kind = "mixed" -> FALSE
                    [] c.kind = "keys" -> Len(c.keys) > 0 /\ \A i \in 1..Len(c.keys) : c.keys[i] # ""
                    [] c.kind = "matrix" -> Len(c.mk) > 0 /\ \A i \in 1..Len(c.mv) : Len(c.mv[i]) > 0 /\ \A j \in 1..Len(c.mv[i]) : c.mv[i][j] # ""
 MustReject(c) == ~WellFormed(c) \/ ~InputDistinct(c)
